@@ -27,7 +27,14 @@ EXTRA = [
     # non-ASCII records whose UTF-16 forms contain 0x0A / 0x00 bytes in awkward places
     ("rec-cjk-gurmukhi", "TitleUnicode:一ਅક"), ("rec-0100-0a05", "Title:xĀਅy"), ("rec-010a", "Artist:aĊb"), ("rec-4e0a", "Tags:上海 上"),
     ("rec-0a0a", "Source:ਊਊ"), ("rec-astral", "Creator:𐐊😊"), ("rec-3000-0a41", "Version:　ੁ"), ("cjk-comment", "// 一ਅ"),
-] + [("hdr-" + h, h) for h in HEADERS]
+] + [("hdr-" + h, h) for h in HEADERS] + [
+    # bracketed lines one edit away from a recognised header (seed C05-q: `[Colors]` accepted next to `[Colours]`): none opens a section
+    ("near-" + h, h) for h in ["[Colors]", "[Colour]", "[Color]", "[colours]", "[Hitobjects]", "[HitObject]", "[TimingPoint]", "[Timingpoints]", "[Event]", "[MetaData]",
+                               "[Generals]", "[Fonts]", "[Storyboard]", "[Taiko]", "[Osu]", "[Catch]", "[Variable]", "[Difficulties]", "[Editors]", "[ General]", "[General ]"]
+] + [
+    # U+FEFF where no BOM belongs: in front of a later line, alone on a line, doubled at the start (seed C05-r: stripped before the version check)
+    ("feff-ver", "\ufeffosu file format v4"), ("feff-only", "\ufeff"), ("feff-hdr", "\ufeff[Metadata]"), ("feff-rec", "\ufeffTitle: t"), ("feff-feff-ver", "\ufeff\ufeffosu file format v5"),
+]
 
 
 class C05(Property):
@@ -110,6 +117,15 @@ class C05(Property):
             except UnicodeEncodeError:
                 continue
             cases.append(Case("fromstr " + hexs(data), tags=("from_str-with-bom",)))
+        # a second U+FEFF after the real BOM, in every encoding and through from_str: only the leading one is a BOM; the version line that
+        # follows a stray one does not carry the version prefix (latest version, and the line opens no section)
+        for enc in ("utf8", "utf8bom", "utf16le", "utf16be"):
+            for body in ("\ufeffosu file format v4\n[Metadata]\nTitle:t\n", "\n\ufeff\nosu file format v4\n[Metadata]\nTitle:t\n", "\ufeff\ufeffosu file format v6\n[General]\nMode: 1\n",
+                         "\ufeff\n[Metadata]\nTitle:t\n", "osu file format v7\n\ufeff[Metadata]\nTitle:t\n[Metadata]\nArtist:a\n"):
+                cases.append(Case("frame " + hexs(encodings(body)[enc]), tags=("stray-feff", enc)))
+                if enc == "utf8":
+                    cases.append(Case("fromstr " + hexs(body.encode()), tags=("stray-feff-from_str",)))
+                    cases.append(Case("fromstr " + hexs(("\ufeff" + body).encode()), tags=("stray-feff-from_str",)))
         for f in bundled_files():
             data = open(f, "rb").read()
             cases.append(Case("frame " + hexs(data), tags=("bundled",)))
